@@ -129,6 +129,16 @@ def run_group(group, tier, repo='/repo', only=None, _retry=False):
         import fcntl
         lockf = open(os.path.join(CACHE, 'kani.lock'), 'w')
         fcntl.flock(lockf, fcntl.LOCK_EX)
+        # cargo decides freshness by comparing source mtimes with the previous build in the shared target directory, and the
+        # package hash does not depend on the scratch path: a scratch copy prepared BEFORE the lock was taken (or one whose
+        # files carry old mtimes) would silently reuse the artifacts of another tree.  Force a rebuild of the crate under test.
+        import glob
+        for bd in glob.glob(os.path.join(env['CARGO_TARGET_DIR'], 'kani', '*', 'debug', 'build', 'yrs')):
+            shutil.rmtree(bd, ignore_errors=True)
+        now = time.time()
+        for root, _dirs, fns in os.walk(os.path.join(scratch, 'yrs', 'src')):
+            for fn in fns:
+                os.utime(os.path.join(root, fn), (now, now))
         try:
             p = subprocess.run(cmd, cwd=scratch, env=env, stdout=subprocess.PIPE, stderr=subprocess.STDOUT, text=True,
                                timeout=budget * max(1, (len(sel) + 7) // 8) + 600)
